@@ -65,6 +65,9 @@ class Monitor:
             wl = wake_line(v, n)
             if wl:
                 evs.append(["wake", n])
+        if self.cfg.get("ackwake"):
+            for n in self.nodes:
+                evs.append(["wake", n, 1])  # the same announcement with the ack flag set
         for n in self.nodes:
             evs.append(["line", f"{n};{c0};1;0;2;x"])  # a set from the node (non-wake traffic)
         # the node reports exactly a value the application also sends, and echoes one with the ack flag set
@@ -132,7 +135,8 @@ class Monitor:
                 self.buffer.pop(key, None)
         elif kind == "wake":
             n = ev[1]
-            out = s.line(wake_line(v, n))
+            wl_now = wake_line(v, n) if len(ev) < 3 else wake_line(v, n).replace(";3;0;", ";3;1;", 1)
+            out = s.line(wl_now)
             self.last_desc = out.describe()
             self.sleeping[n] = True
             mine = {k: l for k, l in self.buffer.items() if k[0] == n}
@@ -143,8 +147,8 @@ class Monitor:
                 self.nontrivial = True
             if out.kind != "yield":
                 bad("wake-raised", f"wake of node {n} raised {type(out.exc).__name__}: {out.exc}")
-            elif ";".join(str(x) for x in out.fields) != wake_line(v, n):
-                bad("wake-line-not-yielded", f"the wake line {wake_line(v, n)!r} of node {n} was yielded as {out.fields}")
+            elif ";".join(str(x) for x in out.fields) != wl_now:
+                bad("wake-line-not-yielded", f"the wake line {wl_now!r} of node {n} was yielded as {out.fields}")
             missing = must - got
             extra = got - may
             if missing:
@@ -224,6 +228,8 @@ def configs(ctx: core.Ctx) -> list:
         cfgs.append({"version": "2.1" if v == "2.2" else v, "node_type": 18, "keys": [[1, 3, 2], [2, 3, 2]], "values": ["a", "b"], "sleep": [True, True]})
         # ids one of which is a decimal prefix of the other (25 / 254), child ids likewise (2 / 25)
         cfgs.append({"version": v, "nodes": [25, 254], "children": [2, 25], "keys": [[25, 2, 2], [254, 25, 2]] if ctx.quick else [[25, 2, 2], [254, 25, 2], [254, 2, 25]], "values": ["a", "b"], "sleep": [True, True]})
+    cfgs.append({"version": "2.1", "keys": [[1, 3, 2], [2, 3, 2]], "values": ["a", "b"], "sleep": [True, True], "ackwake": True})
+    cfgs.append({"version": "2.2", "keys": [[1, 3, 2]], "values": ["a", "b"], "sleep": [True, True], "ackwake": True})
     # a set key and an internal command with the same node / child / type number (4 = V_PRESSURE / I_ID_RESPONSE)
     cfgs.append({"version": "2.2", "keys": [[1, 3, 4], [1, 3, 2]], "values": ["a", "b"], "sleep": [True, True], "twins": True})
     # value types the active protocol has no name for (47 under 1.x, 60 everywhere): still a set command
